@@ -555,7 +555,9 @@ def canonical(run, mline):
         peer_visible = set(q for (s_, _k), q in run.cid_seq.items() if s_ != "B")
         mod = ["acc=all" if pm["acc"] == pm["total"] else "acc=%d/%d" % (pm["acc"], pm["total"]),
                "wire=" + ",".join(pm["wire"]),
-               "execB=" + ",".join(str(q) for q in sorted(int(x) for x in pm["execB"]) if q in peer_visible),
+               # (handlers that had been invoked and were unwound by the propagating exception count as invoked)
+               "execB=" + ",".join(str(q) for q in sorted(set(int(x) for x in pm["execB"] + pm["abandB"]))
+                                   if q in peer_visible),
                "serving-side-ended=" + pm["deadB"][0]]
         return " ".join(impl), " ".join(mod)
     mod.append("acc=all" if pm["acc"] == pm["total"] else "acc=%d/%d" % (pm["acc"], pm["total"]))
@@ -773,8 +775,8 @@ def oracle(run):
     for e in reqs:
         peer = "B" if e["side"] == "A" else "A"
         n = len(resp.get((peer, e["seq"]), []))
-        if local and n == 0:
-            continue
+        if local and (n == 0 or e["side"] == "B"):
+            continue      # (the side that went away may also have left its own nested requests without looking at the answer)
         who = "request seq %d of %s (%s)" % (e["seq"], e["side"], "cid %s" % e.get("cid") if not e.get("hidden") else
                                              "handler %s" % e.get("handler"))
         if n != 1:
